@@ -3,8 +3,8 @@
  * The kernels are compiled by clang with
  *   -fsanitize-coverage=trace-pc-guard,trace-loads,trace-stores
  * so every load and store of the generated code calls back into this file with the address.
- * A simulated thread is a ucontext coroutine on its own mmap'ed stack running the real kernel
- * machine code; all coroutines live on one OS thread and a context switch happens only inside
+ * A simulated thread is a coroutine (hand-written x86-64 context switch) on its own mmap'ed
+ * stack running the real kernel machine code; all coroutines live on one OS thread and a context switch happens only inside
  * a callback, when the seeded schedule says so.  The same callback is the memory seam: every
  * access is classified against the regions the driver registered (own A, own inputs, own
  * stack, read-only module data, writable module data, other jobs' buffers, anything else).
@@ -16,11 +16,11 @@
 #include <stdlib.h>
 #include <string.h>
 #include <sys/mman.h>
-#include <ucontext.h>
 
 #define MAXJOBS 8
 #define MAXREG 256
 #define MAXVIOL 16
+#define POISON_BYTES (192 * 1024)
 
 enum { K_A = 1, K_INPUT = 2, K_STACK = 3, K_MOD_RO = 4, K_MOD_RW = 5 };
 enum { V_UNKNOWN = 1, V_FOREIGN = 2, V_STORE_RO = 3, V_MUTABLE_STATIC = 4, V_STEPCAP = 5 };
@@ -55,8 +55,25 @@ typedef struct {
   uint64_t pc_guards;
 } sim_result;
 
+/* Minimal x86-64 context switch (callee-saved registers + mxcsr + x87 control word).  glibc's
+ * swapcontext makes a sigprocmask system call per switch, which dominated the run time. */
 typedef struct {
-  ucontext_t ctx;
+  void* rsp;
+} fctx;
+
+__attribute__((naked, noinline)) static void switch_ctx(fctx* from, fctx* to) {
+  __asm__ volatile(
+      "pushq %rbp\n pushq %rbx\n pushq %r12\n pushq %r13\n pushq %r14\n pushq %r15\n"
+      "subq $8, %rsp\n stmxcsr (%rsp)\n fnstcw 4(%rsp)\n"
+      "movq %rsp, (%rdi)\n"
+      "movq (%rsi), %rsp\n"
+      "ldmxcsr (%rsp)\n fldcw 4(%rsp)\n addq $8, %rsp\n"
+      "popq %r15\n popq %r14\n popq %r13\n popq %r12\n popq %rbx\n popq %rbp\n"
+      "ret\n");
+}
+
+typedef struct {
+  fctx fc;
   char* stack;
   size_t stack_size;
   uintptr_t stack_lo, stack_hi;
@@ -72,7 +89,7 @@ static int nregions, nmodregions;
 static region_t modregions[MAXREG];
 static job_t jobs[MAXJOBS];
 static int njobs, cur = -1;
-static ucontext_t sched_ctx;
+static fctx sched_fc;
 static sim_result* res;
 static int policy;
 static uint64_t rng_state, threshold, quantum, qcount, max_steps;
@@ -116,7 +133,7 @@ static inline void yield_to_sched(int akind) {
   else if (akind == K_STACK) res->probe_switch_on_stack++;
   else if (akind == K_MOD_RO) res->probe_switch_on_table++;
   else if (akind == K_INPUT) res->probe_switch_on_input++;
-  swapcontext(&j->ctx, &sched_ctx);
+  switch_ctx(&j->fc, &sched_fc);
 }
 
 static inline void on_access(uintptr_t addr, int size, int is_store, void* pc) {
@@ -215,7 +232,28 @@ static void tramp(int idx) {
                                   (const int*)(uintptr_t)j->d.ent, (const uint8_t*)(uintptr_t)j->d.perm,
                                   (void*)(uintptr_t)j->d.custom);
   j->state = 2;
-  /* returns to uc_link = scheduler */
+}
+
+static void entry(void) {
+  tramp(cur);
+  switch_ctx(&jobs[cur].fc, &sched_fc); /* never resumed */
+  abort();
+}
+
+static void init_ctx(job_t* j) {
+  uintptr_t top = (j->stack_hi) & ~(uintptr_t)15;
+  uint64_t* sp = (uint64_t*)top;
+  *--sp = 0;                           /* fake return address of entry(): rsp % 16 == 8 at entry */
+  *--sp = (uint64_t)(uintptr_t)&entry; /* popped by ret */
+  for (int i = 0; i < 6; i++) *--sp = 0; /* rbp rbx r12 r13 r14 r15 */
+  --sp;
+  uint32_t mx;
+  uint16_t cw;
+  __asm__ volatile("stmxcsr %0" : "=m"(mx));
+  __asm__ volatile("fnstcw %0" : "=m"(cw));
+  ((uint32_t*)sp)[0] = mx;
+  ((uint32_t*)sp)[1] = cw;
+  j->fc.rsp = sp;
 }
 
 /* ---------------------------------------------------------------- API */
@@ -279,13 +317,12 @@ int sim_run_batch(int n, const sim_job_desc* descs, int pol, uint64_t param, uin
     j->prio = (int)(rnd() % 1000) + 10;
     /* stack residue: a different pattern per (poison, job) */
     uint64_t pat = (poison + 0x9E3779B97F4A7C15ULL * (uint64_t)(k + 1)) | 0x0101010101010101ULL;
-    uint64_t* s = (uint64_t*)j->stack;
-    for (size_t i = 0; i < j->stack_size / 8; i++) s[i] = pat;
-    getcontext(&j->ctx);
-    j->ctx.uc_stack.ss_sp = j->stack;
-    j->ctx.uc_stack.ss_size = j->stack_size;
-    j->ctx.uc_link = &sched_ctx;
-    makecontext(&j->ctx, (void (*)(void))tramp, 1, k);
+    /* the top POISON_BYTES of the stack (it grows down from the top): where the kernel's frame,
+     * its temporaries and libm's frames live */
+    size_t pb = j->stack_size < POISON_BYTES ? j->stack_size : POISON_BYTES;
+    uint64_t* s = (uint64_t*)(j->stack + j->stack_size - pb);
+    for (size_t i = 0; i < pb / 8; i++) s[i] = pat;
+    init_ctx(j);
   }
   int remaining = n, last = -1;
   while (remaining > 0) {
@@ -332,7 +369,7 @@ int sim_run_batch(int n, const sim_job_desc* descs, int pol, uint64_t param, uin
     mix(0xABCD0000ULL + k);
     cur = k;
     last = k;
-    swapcontext(&sched_ctx, &jobs[k].ctx);
+    switch_ctx(&sched_fc, &jobs[k].fc);
     cur = -1;
     if (jobs[k].state == 2) remaining--;
   }
